@@ -19,6 +19,34 @@ def two_formats(d):
     return False
 
 
+def bound_format_discordant(d):
+    """some tensor is bound under a format whose rank-order is not the order in which that Einsum's loop order reaches those ranks
+    (a rank of the format that the mapping tiles counts at its first level in the loop order): such a format is not a "loop format"
+    of the Einsum (Metrics.__build_format_options drops it), yet its bindings are still consumed"""
+    import re
+    fm = d.get("format") or {}
+    los = ((d.get("mapping") or {}).get("loop-order") or {})
+    for ein, bl in (d.get("bindings") or {}).items():
+        lo = los.get(ein)
+        if not lo:
+            continue
+        base = [re.sub(r"\d+$", "", r) for r in lo]
+        for b in bl:
+            for x in b.get("bindings") or []:
+                if not (isinstance(x, dict) and "tensor" in x and "format" in x):
+                    continue
+                fo = ((fm.get(x["tensor"]) or {}).get(x["format"]) or {}).get("rank-order") or []
+                pos = []
+                for r in fo:
+                    if r in lo:
+                        pos.append(lo.index(r))
+                    elif r in base:
+                        pos.append(base.index(r))
+                if pos != sorted(pos):
+                    return True
+    return False
+
+
 def run(ctx):
     import gens7
     ctx.rule = ("metrics-mode compilations of the corpus accelerator specifications and of generated G7 specifications under several hash seeds; the tree is handed to Lean, which extracts the "
@@ -27,7 +55,7 @@ def run(ctx):
                    "the event extraction HF.stmtItems is executable Lean evaluated on the real trees (no theorem about the extractor)", "specifications are sampled"]
     k = 1 if ctx.tier == "quick" else 8
     recs = pool.collect(ctx, [dict(gen="corpus", count=0, modes=["metrics"], all_workers=True), dict(gen="g7", count=150 * k, modes=["metrics"]),
-                              dict(gen="g7lf", count=25 * k, modes=["metrics"])])
+                              dict(gen="g7lf", count=25 * k, modes=["metrics"]), dict(gen="g7fmt", count=40 * k, modes=["metrics"])])
     reqs, metas = [], []
     for r in recs:
         tags = set(r["case"]["tags"]) if r.get("case") else set()
@@ -51,6 +79,10 @@ def run(ctx):
             continue
         if not a["ok"] and "needs files" in a["why"] and two_formats(r["yaml"]):
             f = ctx.match_finding({"predicates": {"tensor_with_several_formats_bound"}, "signature": "unregistered-trace-file-consumed"})
+            if f:
+                ctx.known(f, f["what"], failed_obligations=1 + (0 if sections_ok else 1)); continue
+        if not a["ok"] and "needs files" in a["why"] and bound_format_discordant(r["yaml"]):
+            f = ctx.match_finding({"predicates": {"bound_format_discordant_with_loop_order"}, "signature": "unregistered-trace-file-consumed"})
             if f:
                 ctx.known(f, f["what"], failed_obligations=1 + (0 if sections_ok else 1)); continue
         ctx.violation(dict(kind="trace-machine", yaml=r["yaml"], yaml_text=specs.dump_yaml(r["yaml"]), hashseed=r["hashseed"], text=r["text"],
